@@ -443,12 +443,27 @@ def classify_history(chk, P, fresh, cex, last, bad, seq_cex, hist_index=None):
             'replay': 'echo the JSON list `sequence` | tools/checks/po_fresh.py run   (all ops in ONE new process, in this order; the last result is wrong; '
                       'load ops: write bytes.fromhex(hex) to a file and polib.pofile(path) after Checker.patch_environment())'}
 
+TIE_EXPLANATION = (
+    ' TIE BY TRANSLATION (Props/C10Tie.lean): lib/polib4us.py is regenerated from the current source on every run (tools/translate/polib4us2lean.py -> '
+    'Generated/Polib4us.lean over the kit Model/PoPy.lean) — _wrap_octal_escape, polib_unescape with its inner unescape(match), the POEntry.flags setter, the patched '
+    'translated(), Codecs._is_ignored_comment and the generator Codecs.open — and proved equal, for all strings / files / charsets / environments, to unescape, setFlags, '
+    'translated, isIgnoredComment and decodeFile + preprocess of Model/Po.lean: generated_wrap_octal_escape_eq_model, generated_unescape_inner_eq_model, '
+    'generated_polib_unescape_eq_model, generated_set_flags_eq_model, generated_translated_eq_model, generated_is_ignored_comment_eq_model, '
+    'generated_codecs_open_eq_model; restated about the regenerated functions: unescape_spelling_generated, unescape_witnesses_generated, translated_iff_generated, '
+    'codecs_open_keeps_body_generated, codecs_open_decode_error_generated (coverage.tie; twin streams po-unescape-generated, po-preprocess-generated, '
+    'po-setflags-generated). polib\'s own _POFileParser and detect_encoding stay hand-modelled.')
+
 def main():
     chk = common.Check('C10')
     import po_common as P
-    proved = chk.prove('I18n.Props.C10', generated=('polib',))
-    problems = ' '.join(chk.lean.problems)
-    driver_ok = os.path.exists(common.driver_path()) and not any('untranslatable' in s for s in chk.lean.translation.values()) \
+    proved = chk.prove('I18n.Props.C10', generated=('polib', 'polib4us'), extra_targets=())
+    # the tie by translation: lib/polib4us.py regenerated from the current source and proved equal to the model's loader front end (Props/C10Tie.lean)
+    tie_ok = common.prove_tie(chk, 'I18n.Props.C10Tie', ('polib4us',),
+                              'polib_unescape / the flags setter / translated / Codecs._is_ignored_comment / Codecs.open regenerated from the current lib/polib4us.py '
+                              'are no longer proved equal to unescape / setFlags / translated / isIgnoredComment / decodeFile + preprocess of Model/Po.lean '
+                              '(generated_*_eq_model and the theorems restated about them)')
+    problems = ' '.join(p for p in chk.lean.problems if not p.startswith('I18n.Props.C10Tie'))
+    driver_ok = os.path.exists(common.driver_path()) and not any('untranslatable' in s for k, s in chk.lean.translation.items() if k != 'polib4us') \
         and 'Driver' not in problems and 'I18n.Model' not in problems and 'I18n.Generated' not in problems
     rng = chk.rng
     T = chk.thorough
@@ -480,8 +495,13 @@ def main():
             r, _stderr, _exc = P.impl_unescape(enc, s)
             lines.append(line); impls.append(r)
         dis, _ = chk.stream('po-unescape', lines, impls)
+        if tie_ok:      # the twins: the same inputs through the functions REGENERATED from lib/polib4us.py (Generated.Polib4us)
+            chk.stream('po-unescape-generated', [l.replace('po unescape ', 'po gunescape ', 1) for l in lines], impls)
         pi = preprocess_inputs(rng, n_unit // 2)
-        chk.stream('po-preprocess', [f'po preprocess {P.hexchars(t)}' for t in pi], [P.impl_preprocess(t) for t in pi])
+        pre_impls = [P.impl_preprocess(t) for t in pi]
+        chk.stream('po-preprocess', [f'po preprocess {P.hexchars(t)}' for t in pi], pre_impls)
+        if tie_ok:
+            chk.stream('po-preprocess-generated', [f'po gpreprocess {P.hexchars(t)}' for t in pi], pre_impls)
         di = detect_inputs(rng, n_unit // 2)
         lines, impls = [], []
         for d in di:
@@ -491,6 +511,12 @@ def main():
             lines.append(f'po detect {o} {d.hex() or "-"}'); impls.append(P.impl_detect(d))
         chk.stream('po-detect', lines, impls)
         fi = flagline_inputs(rng, n_unit // 4)
+        fitems = [[l[3:]] for l in fi] + [[l[3:], ' x ,y\t'] for l in fi[:200]]
+        fitems = [it for it in fitems if all(x and '\n' not in x for x in it)]
+        set_impls = [P.impl_setflags(it) for it in fitems]
+        chk.stream('po-setflags', ['po setflags ' + ' '.join(P.hexchars(x) for x in it) for it in fitems], set_impls)
+        if tie_ok:
+            chk.stream('po-setflags-generated', ['po gsetflags ' + ' '.join(P.hexchars(x) for x in it) for it in fitems], set_impls)
         fdatas = [(l + '\nmsgid "a"\nmsgstr "b"\n').encode('UTF-8') for l in fi]
         fdatas = [b'msgid ""\nmsgstr "Content-Type: text/plain; charset=UTF-8\\n"\n\n' + d for d in fdatas]
         dis, _ = chk.stream('po-flags', [P.load_line(d)[0] for d in fdatas], [P.impl_load(d) for d in fdatas])
@@ -667,8 +693,11 @@ def main():
                  'Python codecs are a parameter (Env): the driver implements ASCII, ISO-8859-1, UTF-8, single-byte charmaps read from Python, and multi-byte codecs as a table over the '
                  'generator\'s repertoire (well-formed stream only); files needing another family are skipped and counted',
                  'Spec.PoSpelling is my reading of the PO syntax (gettext manual, po-lex.c): no msgfmt/msgunfmt is installed to compare with',
+                 'tools/translate/polib4us2lean.py + tools/translate/pytr (the translated subset of lib/polib4us.py) and the kit Model/PoPy.lean: the five regexes '
+                 'pinned by pattern text and standing for the model\'s scanners on both sides; on a run of escapes the two fix-up substitutions act escape by escape and '
+                 'literal_eval yields each escape\'s byte; the stack-frame hack is the parameter file_encoding; a generator is the list it yields',
                  'the correspondence harness (tools/checks/po_common.py, Driver/Po.lean)'],
-        explanation=EXPLANATION)
+        explanation=EXPLANATION + TIE_EXPLANATION)
 
 EXPLANATION = (
     'Proved in Lean (Props/C10.lean; all strings, all spellings, every codec environment satisfying CodecOk = ASCII-transparent charset that decodes what it encodes): '
